@@ -10,17 +10,18 @@ variable {P : Type}
 /-- Full window, sound table, any cancellation: the table stays sound; a search that is live at its end
     returns exactly `V` with a principal variation. -/
 theorem alphabeta_tt_full {g : Game P} (hev : EvalOk g) (ex : Explore) (le : LeafEval) {rootPly : Int}
-    (hrf : RootFree g rootPly) (hh : HashOK g ex le) (d : Nat) (hd : leafGrade le + d ≤ 127)
-    (p : P) (st : SState) (hs : Sound g ex le st.tt) :
+    {R U : Nat → P → Prop} (hcl : Closed g ex R) (hRU : ∀ n q, R n q → U n q)
+    (hrf : RootFreeOn g R rootPly) (hh : HashOKOn g ex le U) (d : Nat) (hd : leafGrade le + d ≤ 127)
+    (p : P) (hp : R d p) (st : SState) (hs : SoundOn g ex le U st.tt) :
     Mono st (alphabeta g ex le rootPly d p negInfScore infScore st).2.2 ∧
-    Sound g ex le (alphabeta g ex le rootPly d p negInfScore infScore st).2.2.tt ∧
+    SoundOn g ex le U (alphabeta g ex le rootPly d p negInfScore infScore st).2.2.tt ∧
     (Live (alphabeta g ex le rootPly d p negInfScore infScore st).2.2 →
       (alphabeta g ex le rootPly d p negInfScore infScore st).1 = V g ex le rootPly d p ∧
       Principal g ex le rootPly d p (alphabeta g ex le rootPly d p negInfScore infScore st).2.1) := by
   have ha : okN (leafGrade le + d) negInfScore := okN_mono okN_negInf (by omega)
   have hb : okN (leafGrade le + d) infScore := okN_mono okN_inf (by omega)
-  obtain ⟨h1, h2, h3⟩ := (alphabeta_recTT hev ex le hrf hh (leafGrade le) (Nat.le_refl _) d hd).node p
-    negInfScore infScore st hs (fun _ => ⟨ha, hb⟩)
+  obtain ⟨h1, h2, h3⟩ := (alphabeta_recTT hev ex le hcl hRU hrf hh (leafGrade le) (Nat.le_refl _) d hd).node p
+    negInfScore infScore st hp hs (fun _ => ⟨ha, hb⟩)
   refine ⟨h1, h2, fun hl => ?_⟩
   obtain ⟨q1, _, q3, q4⟩ := h3 hl
   have hclip := q3 (by decide)
@@ -32,14 +33,15 @@ theorem alphabeta_tt_full {g : Game P} (hev : EvalOk g) (ex : Explore) (le : Lea
 
 /-- At the root ply, with a legal move, an empty PV means alpha was never raised. -/
 theorem alphabeta_root_pv {g : Game P} (hev : EvalOk g) (ex : Explore) (le : LeafEval) {rootPly : Int}
-    (hrf : RootFree g rootPly) (hh : HashOK g ex le) (K : Nat) (hK : leafGrade le ≤ K) (d : Nat)
-    (hKd : K + d + 1 ≤ 127) (p : P) (a b : Score) (st : SState) (hs : Sound g ex le st.tt)
+    {R U : Nat → P → Prop} (hcl : Closed g ex R) (hRU : ∀ n q, R n q → U n q)
+    (hrf : RootFreeOn g R rootPly) (hh : HashOKOn g ex le U) (K : Nat) (hK : leafGrade le ≤ K) (d : Nat)
+    (hKd : K + d + 1 ≤ 127) (p : P) (hp : R (d + 1) p) (a b : Score) (st : SState) (hs : SoundOn g ex le U st.tt)
     (ha : okN (K + d + 1) a) (hb : okN (K + d + 1) b) (hroot : g.ply p = rootPly)
     (hl : legalAny g p (g.moves p) = true)
     (hlive : Live (alphabeta g ex le rootPly (d + 1) p a b st).2.2)
     (hnil : (alphabeta g ex le rootPly (d + 1) p a b st).2.1 = []) :
     (alphabeta g ex le rootPly (d + 1) p a b st).1 = a := by
-  have IH := alphabeta_recTT hev ex le hrf hh K hK d (by omega)
+  have IH := alphabeta_recTT hev ex le hcl hRU hrf hh K hK d (by omega)
   have hdraw : (!(g.ply p == rootPly) && g.isDraw p) = false := by simp [hroot]
   by_cases hc : cancelled st = true
   · exfalso
@@ -51,15 +53,17 @@ theorem alphabeta_root_pv {g : Game P} (hev : EvalOk g) (ex : Explore) (le : Lea
     obtain ⟨best, hbest⟩ := abEnter_root (d + 1) p st hroot hc'
     rw [alphabeta_succ_eq, hbest] at hlive hnil ⊢
     dsimp only at hlive hnil ⊢
-    obtain ⟨_, _, h3⟩ := abBody_tt hev ex le hrf hh K hK d hKd IH p a b best (tick st) hs ha hb hdraw _ rfl
+    obtain ⟨_, _, h3⟩ := abBody_tt hev ex le hcl hRU hrf hh K hK d hKd IH p hp a b best (tick st) hs ha hb
+      hdraw _ rfl
     exact (h3 hlive).2.2.2.2 hl hnil
 
 /-- `AlphaBeta.Search` without a window in the context, over a sound table, with any cancellation. -/
 theorem alphaBetaSearch_tt {g : Game P} (hev : EvalOk g) (ex : Explore) (le : LeafEval)
-    (hh : HashOK g ex le) (p : P) (hrf : RootFree g (g.ply p)) (d : Nat) (hd : leafGrade le + d ≤ 127)
-    (st : SState) (hs : Sound g ex le st.tt) :
+    {R U : Nat → P → Prop} (hcl : Closed g ex R) (hRU : ∀ n q, R n q → U n q)
+    (hh : HashOKOn g ex le U) (p : P) (hrf : RootFreeOn g R (g.ply p)) (d : Nat) (hd : leafGrade le + d ≤ 127)
+    (hp : R d p) (st : SState) (hs : SoundOn g ex le U st.tt) :
     Mono st (alphaBetaSearch g ex le p d invalidScore invalidScore st).2 ∧
-    Sound g ex le (alphaBetaSearch g ex le p d invalidScore invalidScore st).2.tt ∧
+    SoundOn g ex le U (alphaBetaSearch g ex le p d invalidScore invalidScore st).2.tt ∧
     ((alphaBetaSearch g ex le p d invalidScore invalidScore st).1 = none ↔
       ¬ Live (alphaBetaSearch g ex le p d invalidScore invalidScore st).2) ∧
     (Live (alphaBetaSearch g ex le p d invalidScore invalidScore st).2 →
@@ -68,16 +72,16 @@ theorem alphaBetaSearch_tt {g : Game P} (hev : EvalOk g) (ex : Explore) (le : Le
         Principal g ex le (g.ply p) d p pv ∧
         (∀ d', d = d' + 1 → legalAny g p (g.moves p) = true →
           V g ex le (g.ply p) d p ≠ negInfScore → pv ≠ [])) := by
-  have hs0 : Sound g ex le ({ st with nodes := 0 } : SState).tt := hs
-  obtain ⟨h1, h2, h3⟩ := alphabeta_tt_full hev ex le hrf hh d hd p { st with nodes := 0 } hs0
+  have hs0 : SoundOn g ex le U ({ st with nodes := 0 } : SState).tt := hs
+  obtain ⟨h1, h2, h3⟩ := alphabeta_tt_full hev ex le hcl hRU hrf hh d hd p hp { st with nodes := 0 } hs0
   have hroot : ∀ d', d = d' + 1 → legalAny g p (g.moves p) = true →
       Live (alphabeta g ex le (g.ply p) d p negInfScore infScore { st with nodes := 0 }).2.2 →
       (alphabeta g ex le (g.ply p) d p negInfScore infScore { st with nodes := 0 }).2.1 = [] →
       (alphabeta g ex le (g.ply p) d p negInfScore infScore { st with nodes := 0 }).1 = negInfScore := by
     intro d' hdd
     subst hdd
-    exact alphabeta_root_pv hev ex le hrf hh (leafGrade le) (Nat.le_refl _) d' (by omega) p negInfScore infScore
-      { st with nodes := 0 } hs0 (okN_mono okN_negInf (by omega)) (okN_mono okN_inf (by omega)) rfl
+    exact alphabeta_root_pv hev ex le hcl hRU hrf hh (leafGrade le) (Nat.le_refl _) d' (by omega) p hp
+      negInfScore infScore { st with nodes := 0 } hs0 (okN_mono okN_negInf (by omega)) (okN_mono okN_inf (by omega)) rfl
   have heq : alphaBetaSearch g ex le p d invalidScore invalidScore st =
       if cancelled (alphabeta g ex le (g.ply p) d p negInfScore infScore { st with nodes := 0 }).2.2 then
         (none, tick (alphabeta g ex le (g.ply p) d p negInfScore infScore { st with nodes := 0 }).2.2)
@@ -120,20 +124,25 @@ def searchSeq (g : Game P) (ex : Explore) (le : LeafEval) :
     let rs := searchSeq g ex le rest r.2
     (r.1 :: rs.1, rs.2)
 
-theorem searchSeq_tt {g : Game P} (hev : EvalOk g) (ex : Explore) (le : LeafEval) (hh : HashOK g ex le) :
-    ∀ (l : List (P × Nat)) (st : SState), Sound g ex le st.tt → st.cancelAt = none →
-      (∀ pd ∈ l, RootFree g (g.ply pd.1) ∧ leafGrade le + pd.2 ≤ 127) →
+/-- A sequence of searches over one table: `U` is the region the table is sound on (it contains the tree of
+    every search of the sequence); the root-ply condition is needed on each search's own tree only. -/
+theorem searchSeq_tt {g : Game P} (hev : EvalOk g) (ex : Explore) (le : LeafEval) {U : Nat → P → Prop}
+    (hh : HashOKOn g ex le U) :
+    ∀ (l : List (P × Nat)) (st : SState), SoundOn g ex le U st.tt → st.cancelAt = none →
+      (∀ pd ∈ l, (∀ n q, Tree g ex pd.1 pd.2 n q → U n q) ∧
+        RootFreeOn g (Tree g ex pd.1 pd.2) (g.ply pd.1) ∧ leafGrade le + pd.2 ≤ 127) →
       (searchSeq g ex le l st).1.map (fun o => o.map (·.score)) =
         l.map (fun pd => some (V g ex le (g.ply pd.1) pd.2 pd.1)) ∧
-      Sound g ex le (searchSeq g ex le l st).2.tt ∧ (searchSeq g ex le l st).2.cancelAt = none := by
+      SoundOn g ex le U (searchSeq g ex le l st).2.tt ∧ (searchSeq g ex le l st).2.cancelAt = none := by
   intro l
   induction l with
   | nil => intro st hs hc _; exact ⟨rfl, hs, hc⟩
   | cons pd rest ih =>
     intro st hs hc hall
     obtain ⟨p, d⟩ := pd
-    obtain ⟨hrf, hd⟩ := hall (p, d) List.mem_cons_self
-    obtain ⟨h1, h2, _, h4⟩ := alphaBetaSearch_tt hev ex le hh p hrf d hd st hs
+    obtain ⟨hsub, hrf, hd⟩ := hall (p, d) List.mem_cons_self
+    obtain ⟨h1, h2, _, h4⟩ := alphaBetaSearch_tt hev ex le (tree_closed g ex p d) hsub hh p hrf d hd
+      (tree_root g ex p d) st hs
     have hc' : (alphaBetaSearch g ex le p d invalidScore invalidScore st).2.cancelAt = none := by
       rw [h1.1]; exact hc
     obtain ⟨n, pv, e, _⟩ := h4 (live_of_none hc')
